@@ -416,17 +416,20 @@ def catUpdate (cat : Catalog) (h : Header) (q : Question) (hasEdns : Bool) : Gat
     | .err => .panic "Catalog::find:err"
     | .panic s => .panic s
 
+/-- `req_edns.version() > our_version` with `our_version = 0` -/
+def ednsTooNew : Option Nat → Bool
+  | some v => decide (v > 0)
+  | none => false
+
 /-- `<Catalog as RequestHandler>::handle_request` -/
 def catalogHandle (cat : Catalog) (h : Header) (q : Question) (edns : Option Nat) : Gate :=
-  let hasEdns := edns.isSome
-  if (match edns with | some v => decide (v > 0) | none => false) then
-    .reply (catError h true RC_BADVERS none [])
+  if ednsTooNew edns then .reply (catError h true RC_BADVERS none [])
   else if h.qr then
     -- `MessageType::Response`: never reached through `ServerContext::handle_request`
-    .reply (catError h hasEdns RC_FORMERR none [])
-  else if h.opcode = OP_QUERY then catLookup cat h q hasEdns
-  else if h.opcode = OP_UPDATE then catUpdate cat h q hasEdns
-  else .reply (catError h hasEdns RC_NOTIMP none [])
+    .reply (catError h edns.isSome RC_FORMERR none [])
+  else if h.opcode = OP_QUERY then catLookup cat h q edns.isSome
+  else if h.opcode = OP_UPDATE then catUpdate cat h q edns.isSome
+  else .reply (catError h edns.isSome RC_NOTIMP none [])
 
 structure Config where
   acl : Acl
